@@ -697,23 +697,52 @@ J_FIXED = [
 
 # ------------------------------------------------------------------------------------------ running
 
-def shard_run(ctx, exe, lines, shards=12, timeout=3000):
+def _run_chunk(exe, chunk, timeout):
+    """-> (outputs, status) for one process; status: 'ok' | 'timeout' | 'died'"""
+    try:
+        p = subprocess.run([exe], input="\n".join(chunk) + "\n", stdout=subprocess.PIPE, stderr=subprocess.PIPE, text=True, timeout=timeout)
+        out = (p.stdout or "").splitlines()
+        return out, ("ok" if len(out) >= len(chunk) else "died")
+    except subprocess.TimeoutExpired as e:
+        o = e.stdout
+        if isinstance(o, bytes): o = o.decode("utf8", "replace")
+        return (o or "").splitlines(), "timeout"
+
+def _run_chunk_robust(exe, chunk, timeout):
+    """A slow machine never produces a violation: a timeout is retried once with a longer budget and then reported as
+    INCONCLUSIVE for the lines without an answer.  A process that dies is a finding: the line it died on is marked CRASH
+    and the rest of the chunk is run in a new process."""
+    res = []
+    rest = list(chunk)
+    tries = 0
+    while rest:
+        out, st = _run_chunk(exe, rest, timeout)
+        out = out[:len(rest)]
+        res += out
+        rest = rest[len(out):]
+        if st == "ok" or not rest:
+            break
+        if st == "timeout":
+            tries += 1
+            if tries >= 2:
+                res += ["INCONCLUSIVE(timeout)"] * len(rest)
+                break
+            timeout *= 3
+            continue
+        # died on rest[0]
+        res.append("CRASH(the harness process died on this line)")
+        rest = rest[1:]
+    return res
+
+def shard_run(ctx, exe, lines, shards=12, timeout=900):
     """Run a stateless line-protocol executable over `lines`, sharded over processes; order preserved."""
     if not lines: return []
     n = max(1, min(shards, len(lines) // 200 + 1))
     chunks = [lines[i::n] for i in range(n)]
-    procs = []
-    for ch in chunks:
-        p = subprocess.Popen([exe], stdin=subprocess.PIPE, stdout=subprocess.PIPE, stderr=subprocess.PIPE, text=True)
-        procs.append(p)
     import threading
     outs = [None] * n
     def feed(i):
-        try:
-            o, e = procs[i].communicate("\n".join(chunks[i]) + "\n", timeout=timeout)
-        except subprocess.TimeoutExpired:
-            procs[i].kill(); o, e = procs[i].communicate()
-        outs[i] = (o or "").splitlines()
+        outs[i] = _run_chunk_robust(exe, chunks[i], timeout)
     ths = [threading.Thread(target=feed, args=(i,)) for i in range(n)]
     for t in ths: t.start()
     for t in ths: t.join()
@@ -721,7 +750,10 @@ def shard_run(ctx, exe, lines, shards=12, timeout=3000):
     for i in range(n):
         o = outs[i]
         for j, idx in enumerate(range(i, len(lines), n)):
-            res[idx] = o[j] if j < len(o) else "CRASH(no output: harness died in this shard)"
+            res[idx] = o[j] if j < len(o) else "INCONCLUSIVE(no answer)"
+    k = sum(1 for x in res if x.startswith("INCONCLUSIVE"))
+    if k:
+        ctx.stats["inconclusive_lines"] = ctx.stats.get("inconclusive_lines", 0) + k
     return res
 
 def load_corpus():
@@ -781,7 +813,7 @@ def main(ctx):
     ok, errs = ctx.lake_build(["GojaModel.C19.Props", "model_c19"])
     lean_ok = ok
     if ok:
-        ctx.audit("GojaModel.C19.Props", expect_min=16)
+        ctx.audit("GojaModel.C19.Props", expect_min=30)
         if ctx.tier == "thorough":
             ctx.leanchecker("GojaModel.C19.Props")
     h = ctx.go_build()
@@ -804,7 +836,7 @@ def main(ctx):
     for s in NUM_FIXED:
         addP(units(s), "fixed-number"); addP(units("[" + s + "]"), "fixed-number"); addP(units("-" + s), "fixed-number")
     bases = [units(s) for s in BASE_FOR_EDITS]
-    n_gen = 1500 if quick else 10000
+    n_gen = 1200 if quick else 10000
     gen = []
     for _ in range(n_gen):
         t = units(gen_text(r))
@@ -812,7 +844,7 @@ def main(ctx):
     # exhaustive single edits of the fixed bases and of some short generated texts
     short = [t for t in gen if 4 <= len(t) <= 40]
     r.shuffle(short)
-    edit_bases = bases + short[:(12 if quick else 60)]
+    edit_bases = bases + short[:(8 if quick else 60)]
     n_ex = 0
     for b in edit_bases:
         for e in all_single_edits(b):
@@ -836,15 +868,39 @@ def main(ctx):
     for toks in (["a2", "a0", "a1", "n0031"], ["o2", "s0061", "o0", "s0062", "a1", "o0"], ["a3", "o0", "a0", "o1", "s0061", "a0"]):
         for g in gaps_all: S.append("S " + g + " " + " ".join(toks))
 
+    # allow-lists on plain data (model: stringifyPL = stringify ∘ project)
+    SL = [l for l in corpus if l.startswith("SL ")]
+    for i in range(100 if quick else 1500):
+        toks = gen_plain(r, 0, r.choice([1, 2, 3, 4]))
+        n = r.choice([0, 1, 2, 3, 5, 8])
+        items = []
+        for _ in range(n):
+            if r.random() < 0.75: items.append("s" + hx(r.choice(S_KEYS)))
+            else: items.append("n" + hx(str(r.choice([0, 1, 2, 3, 7, 10, 4294967294, 4294967295, -1]) if r.random() < 0.8 else "1.5")))
+        for g in r.sample(gaps_all, 2):
+            SL.append("SL " + g + " %d " % n + " ".join(items + toks))
+    S += SL
     J = [l for l in corpus if l.startswith("J ") or l.startswith("JF ")]
     for s in J_FIXED: J.append("JF " + hx(s))
-    n_j = 1500 if quick else 15000
+    n_j = 1200 if quick else 15000
     for _ in range(n_j):
         J.append(JGen(r).case())
     V = [l for l in corpus if l.startswith("V ") or l.startswith("VF ")]
     for t in V_TEXTS[:8]:
         for rv in V_REVIVERS: V.append("V " + hx("function mk(){ return [%s, %s]; }" % (js_str(t), rv)))
     for _ in range(300 if quick else 6000): V.append(gen_v(r))
+    # pure revivers of the Lean model (revive / calls): text x dropped keys x nulled keys
+    RV = [l for l in corpus if l.startswith("RV ")]
+    rv_keys = ["", "0", "1", "2", "3", "10", "a", "b", "c", "__proto__", "x", "\u00e9", "length", "4294967295"]
+    rv_texts = [t for t in V_TEXTS if t not in ("[1,2", "x", "")] + ["[[1,2],[3,[4,5]],{\"0\":[6]}]", "{\"1\":{\"1\":{\"1\":1}},\"0\":[0]}"]
+    for _ in range(400 if quick else 8000):
+        if r.random() < 0.5: text = r.choice(rv_texts)
+        else:
+            text = gen_text(r)
+            if len(text) > 120: text = r.choice(rv_texts)
+        D = r.sample(rv_keys, r.choice([0, 0, 1, 2, 3]))
+        Z = r.sample(rv_keys, r.choice([0, 0, 1, 2]))
+        RV.append("RV " + hx(text) + " D " + " ".join("s" + hx(k) for k in D) + " Z " + " ".join("s" + hx(k) for k in Z))
     Q = []
     for s in S_STRS + KEY_POOL: Q.append("Q " + hx(s))
     for _ in range(300 if quick else 5000):
@@ -861,15 +917,17 @@ def main(ctx):
     implJ = shard_run(ctx, h, J)
     implQ = shard_run(ctx, h, Q)
     implV = shard_run(ctx, h, V)
+    implRV = shard_run(ctx, h, RV)
     ctx.log("harness done in %.1fs" % (time.time() - t0))
     if lean_ok:
         t0 = time.time()
         modP = shard_run(ctx, model, Plines)
         modS = shard_run(ctx, model, S)
         modQ = shard_run(ctx, model, Q)
+        modRV = shard_run(ctx, model, RV)
         ctx.log("model done in %.1fs" % (time.time() - t0))
     else:
-        modP = modS = modQ = None
+        modP = modS = modQ = modRV = None
     t0 = time.time()
     pyP = [py_parse(us) for us in P]
     ctx.log("python reference done in %.1fs" % (time.time() - t0))
@@ -883,12 +941,13 @@ def main(ctx):
     for i, us in enumerate(P):
         ref = pyP[i]
         if modP is not None:
-            if ref != "skip" and modP[i] != ref:
+            if ref != "skip" and modP[i] != ref and not modP[i].startswith("INCONCLUSIVE"):
                 mm_model_py.append(i)
             ref = modP[i]
         if ref == "skip": continue
         want = expected_of(ref)
         got = implP[i]
+        if got.startswith("INCONCLUSIVE") or ref.startswith("INCONCLUSIVE"): continue
         c = "reject" if ref == "err" else ("accept-lone-surrogate" if " L " in ref else "accept")
         cls[c] += 1
         bytag.setdefault(tags[i], [0, 0])[0 if ref != "err" else 1] += 1
@@ -921,6 +980,7 @@ def main(ctx):
     badq = []
     if modQ is not None:
         for i, l in enumerate(Q):
+            if implQ[i].startswith("INCONCLUSIVE") or modQ[i].startswith("INCONCLUSIVE"): continue
             if implQ[i] != modQ[i]: badq.append(i)
             ctx.nontriv(l)
     ctx.obligation("corr:quote(model vs goja)", "correspondence", not badq,
@@ -933,7 +993,7 @@ def main(ctx):
     aout = shard_run(ctx, h, ["A 1048576"])[0]
     af = parse_fields(aout)
     asig = "stringify-allow-list-preallocates-by-length-host-oom"
-    if "perslot" not in af:
+    if "perslot" not in af or aout.startswith("INCONCLUSIVE"):
         ctx.stats["allowlist_memory"] = "inconclusive: " + aout[:100]
     else:
         ctx.stats["allowlist_memory"] = aout
@@ -948,6 +1008,7 @@ def main(ctx):
     # ------------------------------------------------------------------ compare: reviver walk
     badv = []
     for i, l in enumerate(V):
+        if implV[i].startswith("INCONCLUSIVE"): continue
         f = parse_fields(implV[i])
         ctx.nontriv(l)
         if "N" not in f or "O" not in f or f["N"] != f["O"]:
@@ -976,6 +1037,28 @@ def main(ctx):
         ctx.violation("parse-reviver-walk-differs-from-specification", "JSON.parse with reviver differs from InternalizeJSONProperty on %s" % unhx(l.split(" ")[1])[:300],
                       {"kind": "input", "op": l, "source": unhx(l.split(" ")[1]), "expected": f.get("O"), "observed": f.get("N"), "others": len(vreal) - 1})
 
+    # ------------------------------------------------------------------ compare: pure revivers, Lean model vs goja
+    badrv = []
+    if modRV is not None:
+        for i, l in enumerate(RV):
+            if implRV[i].startswith("INCONCLUSIVE") or modRV[i].startswith("INCONCLUSIVE"): continue
+            ctx.nontriv(l)
+            want = modRV[i]
+            if " L " in want: continue
+            if want != implRV[i]:
+                # documented exception: texts with lone surrogates are outside this comparison
+                t = units(unhx(l.split(" ")[1]))
+                if fix_text(t) != t: continue
+                badrv.append((l, want, implRV[i]))
+    ctx.count(len(RV))
+    ctx.obligation("corr:reviver walk (Lean revive/calls vs goja) result with holes + call order", "correspondence", not badrv,
+                   "; ".join("%s model=%s goja=%s" % (a[:160], b[:120], c[:120]) for a, b, c in badrv[:3]))
+    if badrv:
+        badrv.sort(key=lambda t: len(t[0]))
+        l, want, got = badrv[0]
+        ctx.violation("parse-reviver-walk-differs-from-model", "JSON.parse(%s, pure reviver): model %s, goja %s" % (show(unhx(l.split(" ")[1])), want[:120], got[:120]),
+                      {"kind": "input", "op": l, "expected": want, "observed": got, "others": len(badrv) - 1})
+
     # ------------------------------------------------------------------ compare: stringify
     xs = {}
     bad_oracle_model = []
@@ -985,6 +1068,7 @@ def main(ctx):
     gapkinds = {}
     for kind, ops, impl, mod in (("S", S, implS, modS), ("J", J, implJ, None)):
         for i, l in enumerate(ops):
+            if impl[i].startswith("INCONCLUSIVE"): continue
             f = parse_fields(impl[i])
             if "N" not in f or "O" not in f:
                 unexplained.append((l, impl[i], "harness failure")); continue
@@ -993,8 +1077,9 @@ def main(ctx):
             res_kinds[rk if rk in res_kinds else "throw"] = res_kinds.get(rk if rk in res_kinds else "throw", 0) + 1
             if kind == "S":
                 g = l.split(" ")[1]
+                if l.startswith("SL "): gapkinds["allow-list"] = gapkinds.get("allow-list", 0) + 1
                 gapkinds[g[0] + str(len(g[1:]) // 4 if g[0] == "s" else g[1:])] = gapkinds.get(g[0] + str(len(g[1:]) // 4 if g[0] == "s" else g[1:]), 0) + 1
-                if mod is not None:
+                if mod is not None and not mod[i].startswith("INCONCLUSIVE"):
                     want = mod[i].replace("ok ", "ok:", 1)
                     if want != f["O"]:
                         bad_oracle_model.append((l, mod[i], f["O"]))
@@ -1080,7 +1165,7 @@ def replay(ctx, path):
     if "source" in rp: print("source  :", rp["source"][:600])
     if "text" in rp: print("text    :", rp["text"][:300])
     print("goja    :", got)
-    if op[0] in "PSQ" and os.path.exists(ctx.model_exe()):
+    if (op[0] in "PSQ" or op.startswith("RV ")) and not op.startswith("SJ") and os.path.exists(ctx.model_exe()):
         print("model   :", shard_run(ctx, ctx.model_exe(), [op])[0])
     if op[0] == "P":
         print("python  :", py_parse(units(unhx(op[2:].strip())) if len(op) > 2 else []))
